@@ -28,6 +28,14 @@ use std::ops::Deref;
 /// assert_eq!(domain.values(), vec![0.0, 0.5, 1.0]);
 /// ```
 pub fn linear_space(start: f64, end: f64, n: usize) -> DiscreteDomain {
+    // A discrete domain is always ascending, so the bounds are ordered before spacing, and a single
+    // value has no step to divide by
+    let (start, end) = (start.min(end), start.max(end));
+    if n == 1 {
+        return DiscreteDomain {
+            values: vec![start],
+        };
+    }
     let mut values = Vec::with_capacity(n);
     let step = (end - start) / (n - 1) as f64;
     for i in 0..n {
